@@ -1,6 +1,8 @@
 """C11 - flag words and packed fields decode to exactly the names of the bits set."""
 from __future__ import annotations
 
+import ast
+
 from typing import Dict, List, Optional, Tuple
 
 from .. import consteval, decoders, render, sym
@@ -55,6 +57,12 @@ def enum_source(repo: Repo, src: T, py311: bool = True):
     while inner.op == "call" and inner.a[0].op == "builtin" and inner.a[0].a[0] in ("list", "tuple", "iter", "sorted", "reversed") \
             and len(inner.a[1]) == 1:
         inner = inner.a[1][0]
+    if inner.op == "global":
+        # a module-level tuple / list of members, e.g. _OPEN_OPTION_FLAGS = (E.A, E.B, ...)
+        found = repo.lookup(inner.a[0])
+        if found and found[0] == "const" and isinstance(found[2], (ast.Tuple, ast.List)):
+            fr = sym._Frame(sym.Interp(repo), found[1], None, None, sym.Record(), "module-constant", 0, ())
+            inner = fr.eval(found[2], sym.State({}, {}, ()))
     ci = cls_of(inner)
     if ci is not None:
         members = []
@@ -160,6 +168,26 @@ def pe(t: T, elem: T, value: int, name: str) -> T:
                     return const(f)
             if y.op == "not" and y.a[0].op == "const":
                 return const(not y.a[0].a[0])
+            if y.op == "ite" and y.a[0].op == "const":
+                return y.a[1] if y.a[0].a[0] else y.a[2]
+            if y.op == "call" and y.a[0] == T("builtin", ("bool",)) and len(y.a[1]) == 1 and not y.a[2]:
+                # bool(x) in a selection condition: same truth value as x
+                return const(bool(y.a[1][0].a[0])) if y.a[1][0].op == "const" else y.a[1][0]
+            if y.op == "bool":
+                vals = list(y.a[1])
+                if y.a[0] == "and":
+                    if any(v.op == "const" and not v.a[0] for v in vals):
+                        return const(False)
+                    vals = [v for v in vals if v.op != "const"]
+                else:
+                    if any(v.op == "const" and v.a[0] for v in vals):
+                        return const(True)
+                    vals = [v for v in vals if v.op != "const"]
+                if not vals:
+                    return const(y.a[0] == "and")
+                if len(vals) == 1:
+                    return vals[0]
+                return T("bool", (y.a[0], tuple(vals)))
             return y
         if isinstance(x, tuple):
             new = tuple(go(e) for e in x)
@@ -277,7 +305,7 @@ def check(repo: Repo, run: Run) -> None:
         n_sites += 1
         by_enum.setdefault(s.enum.qualname + "@" + s.scope, []).append(s)
     run.analysed["selection_sites"] = n_sites
-    run.floor("R2", "enum selection sites", n_sites, 12)
+    run.floor("R2", "enum selection sites", n_sites, 10)
 
     # group sites per (function, enum): a function may cover an enum with several loops (open flags)
     for key, group in sorted(by_enum.items()):
@@ -328,6 +356,30 @@ def check(repo: Repo, run: Run) -> None:
                                f"{ci.name}.{name} is shown only when the whole word equals {r.c:#x}: a word with several "
                                f"flags set shows none of their names", facts={"residual": f"word == {r.c:#x}"}, line=s.line)
                     elif r.kind == "true":
+                        shown_members.add(name)
+        # members chosen one by one (`E.A if word & E.A.value else ...`) instead of by iterating the class
+        fnode = repo.module(mod.split(".", 1)[1]).functions.get(scope) if "." in mod else None
+        if fnode is not None:
+            frec = interp.run(repo.module(mod.split(".", 1)[1]), fnode)
+            roots = [r.value for r in frec.returns if r.value is not None] + [a for e in frec.effects for a in e.args]
+            seen_direct = set()
+            for root in roots:
+                for x in sym.walk(root):
+                    if x.op != "ite" or x.a[1].op != "enum" or x.a[1].a[0] != ci.qualname or x.a[1].a[1] in shown_members:
+                        continue
+                    name = x.a[1].a[1]
+                    val = md.get(name)
+                    r = residual_of([(x.a[0], True)], T("no-elem", ()), val, name)
+                    if r.kind != "bit" or (name, r.c) in seen_direct:
+                        continue
+                    seen_direct.add((name, r.c))
+                    ok = r.c == val and popcount(val) == 1
+                    run.ob("R2", mod, scope, f"{ci.name}.{name}: bit test", ok,
+                           "" if ok else f"{ci.name}.{name} ({val:#x}) is chosen when the word has bits {r.c:#x}: not exactly the "
+                                         f"single bit of its own value",
+                           facts={"residual": repr(r), "iteration": "member named directly"}, line=fnode.lineno)
+                    if ok:
+                        shown_bits |= val
                         shown_members.add(name)
         # the zero member / members mentioned as constants elsewhere in the function (else branches) count as handled
         # coverage of the whole family
